@@ -432,7 +432,7 @@ func (ex *Explorer) Assert(c *Term, msg string) {
 		ex.Assume(c)
 		return
 	}
-	sat, m, err := ex.solver.Check(ex.fullPC(Not(c)))
+	sat, m, err := ex.solver.CheckAssert(ex.fullPC(Not(c)))
 	if err != nil {
 		ex.sh.mu.Lock()
 		ex.sh.Inconclusive++
